@@ -41,6 +41,7 @@ type parser struct {
 	err         error
 	currentLine sourceLine
 	metadata    WarriorData
+	strategy    strings.Builder
 	endSeen     bool
 
 	// collected lines
@@ -106,6 +107,7 @@ func (p *parser) parse() ([]sourceLine, WarriorData, error) {
 		return nil, WarriorData{}, err
 	}
 
+	p.metadata.Strategy = p.strategy.String()
 	return p.lines, p.metadata, nil
 }
 
@@ -205,7 +207,8 @@ func (p *parser) readMetadata(comment string) {
 		p.metadata.Author = strings.TrimSpace(comment[7:])
 	} else if strings.HasPrefix(comment, ";strategy") {
 		if len(comment) > 10 {
-			p.metadata.Strategy += comment[10:] + "\n"
+			p.strategy.WriteString(comment[10:])
+			p.strategy.WriteByte('\n')
 		}
 	}
 }
